@@ -138,14 +138,17 @@ KINDS = ["gaussian", "gaussian_default", "gaussian_arraycov", "gaussian_cplx", "
          "freeze_coupled_gauss", "freeze_coupled_poisson", "freeze_coupled_first", "amend_amend", "freeze_amend_amend",
          # derivative rules of the custom matrix functions (sqrtm, logm, solve) and a 3-d covariance (in 2-d the
          # eigenvector matrix of eigh can be symmetric, which hides transposition errors)
-         "matfun_rules", "ndvcg_cov3", "ndvcg_prec3"]
+         "matfun_rules", "ndvcg_cov3", "ndvcg_prec3",
+         # forward models between spaces of different field: complex latent parameters -> real data and real -> complex
+         "amend_cplx2real", "amend_cplx2real_poisson", "amend_real2cplx", "freeze_cplx2real"]
 # (float32 data declares a float32 domain; evaluating it at float64 points is a dtype mismatch of the caller
 #  -- jax.linear_transpose refuses it -- so single precision is exercised on the classic side only, C11)
 EXACT_PULLBACK = {"gaussian", "gaussian_default", "gaussian_arraycov", "gaussian_cplx", "gaussian_tree", "studentt", "poisson",
                   "amend_poisson", "sum_gauss_poisson", "freeze_sum", "amend_cplx", "sum_cplx", "freeze_cplx",
                   "amend_kwargs", "amend_kwargs_default", "amend_kwargs_poisson", "poisson_u8", "poisson_i32",
                   "gaussian_stdonly", "gaussian_covonly", "studentt_arraydof", "freeze_coupled_gauss", "freeze_coupled_poisson",
-                  "freeze_coupled_first", "amend_amend", "freeze_amend_amend"}
+                  "freeze_coupled_first", "amend_amend", "freeze_amend_amend",
+                  "amend_cplx2real", "amend_cplx2real_poisson", "amend_real2cplx", "freeze_cplx2real"}
 
 
 def krng(kind, seed):
@@ -354,6 +357,38 @@ def make(kind, seed):
             lp, liquid = full.freeze(primals=xi, point_estimates=pe)
             I["lh"], I["p"], I["full"], I["xi"] = lp, liquid, full, xi
             I["liquid_first"] = pe == ("b",)
+    elif kind in ("amend_cplx2real", "amend_cplx2real_poisson", "amend_real2cplx", "freeze_cplx2real"):
+        cpx = lambda *shp: rng.normal(size=shp) + 1j * rng.normal(size=shp)
+        si = np.exp(rng.normal(size=n) * 0.3)
+        a = jnp.asarray(cpx(n))
+        if kind == "amend_real2cplx":
+            # real parameters -> complex data
+            A = jnp.asarray(cpx(n, n))
+            base = jft.Gaussian(jnp.asarray(cpx(n)), noise_cov_inv=lambda x: si ** 2 * x, noise_std_inv=lambda x: si * x)
+            f = lambda x: A @ x + 0.3j * x ** 2
+            I["lh"] = base.amend(f, domain=jft.ShapeWithDtype((n,), jnp.float64))
+            I["p"] = jnp.asarray(rng.normal(size=n))
+            I["base"], I["f"] = {"lh": base}, f
+        else:
+            # COMPLEX parameters -> real signal (not holomorphic): the reverse-mode derivative is complex for real cotangents
+            if kind == "amend_cplx2real_poisson":
+                base = jft.Poissonian(jnp.asarray(rng.poisson(3.0, size=n).astype(np.int64)))
+                g = lambda z: jnp.exp(0.3 * (a * z).real) + jnp.abs(z) ** 2
+            else:
+                base = jft.Gaussian(jnp.asarray(rng.normal(size=n)), noise_std_inv=lambda x: si * x)
+                g = lambda z: (a * z).real + jnp.abs(z) ** 2
+            if kind == "freeze_cplx2real":
+                dom = jft.Vector({"w": jft.ShapeWithDtype((n,), jnp.float64), "z": jft.ShapeWithDtype((n,), jnp.complex128)})
+                f = lambda x: g(x.tree["z"]) * (2.0 + jnp.tanh(x.tree["w"]))
+                xi = jft.Vector({"w": jnp.asarray(0.3 + rng.uniform(size=n)), "z": jnp.asarray(cpx(n))})
+                full = base.amend(f, domain=dom)
+                lp, liquid = full.freeze(primals=xi, point_estimates=("w",))
+                I["lh"], I["p"], I["full"], I["xi"] = lp, liquid, full, xi
+                I["liquid_first"] = False            # keys are ordered (w, z): the liquid block z is the trailing one
+            else:
+                I["lh"] = base.amend(g, domain=jft.ShapeWithDtype((n,), jnp.complex128))
+                I["p"] = jnp.asarray(cpx(n))
+                I["base"], I["f"] = {"lh": base}, g
     elif kind in ("sum_gauss_poisson", "freeze_sum"):
         g, po = make("gaussian", seed), make("poisson", seed)
         a = rng.normal(size=n) * 0.3
@@ -692,7 +727,7 @@ def run_instance(kind, seed, with_expectations=True):
             fails.append(("sum", {"M": M.tolist(), "M1+M2": (m1["M"] + m2["M"]).tolist()}))
         if not close(L @ L.T, m1["L"] @ m1["L"].T + m2["L"] @ m2["L"].T, **tol):
             fails.append(("sum", {"L L^T": (L @ L.T).tolist()}))
-    if kind in ("freeze_sum", "freeze_cplx") or kind.startswith("freeze_coupled") or kind == "freeze_amend_amend":
+    if kind in ("freeze_sum", "freeze_cplx", "freeze_cplx2real") or kind.startswith("freeze_coupled") or kind == "freeze_amend_amend":
         fm = mats(I["full"], I["xi"])
         # coordinates of the full domain are ordered by key: the liquid block is the leading (u | a) or the
         # trailing (b, when "a" is frozen) principal block
@@ -779,6 +814,31 @@ def corr_generated(rend, seed, nrep):
         yield "studentt(array dof, std_inv only) energy", sum(R["studentt_E"](f(c_), f(q), f(a), f(b)) for c_, q, a, b in zip(sa, dofa, d, x)), float(lh.energy(jnp.asarray(x)))
         yield "studentt(array dof, std_inv only) metric", [R["studentt_M"](f(c_ * c_), f(q), f(a)) for c_, q, a in zip(sa, dofa, v)], lh.metric(jnp.asarray(x), jnp.asarray(v))
         yield "studentt(array dof, std_inv only) lsm", [R["studentt_L"](f(c_), f(q), f(a)) for c_, q, a in zip(sa, dofa, v)], lh.left_sqrt_metric(jnp.asarray(x), jnp.asarray(v))
+        # forward model from COMPLEX parameters to real data: dense M, L, R over real coordinates (re, im) against
+        # J_f^T diag(gauss_M) J_f, J_f^T diag(gauss_L), diag(gauss_L) J_f built from the GENERATED per-pixel formulas
+        az = jnp.asarray(rng.normal(size=n) + 1j * rng.normal(size=n))
+        gfun = lambda z: (az * z).real + jnp.abs(z) ** 2
+        lh = jft.Gaussian(jnp.asarray(d), noise_std_inv=lambda t: sa * t).amend(gfun, domain=jft.ShapeWithDtype((n,), jnp.complex128))
+        zp = jnp.asarray(rng.normal(size=n) + 1j * rng.normal(size=n))
+        mm_ = mats(lh, zp)
+        Jf_ = mm_["dc"].dense(lambda t: jax.jvp(gfun, (zp,), (t,))[1], TreeCoords(jnp.zeros(n)))
+        Mg = np.diag([R["gauss_M"](f(c_ * c_), 1.0) for c_ in sa])
+        Lg = np.diag([R["gauss_L"](f(c_), 1.0) for c_ in sa])
+        yield "amend complex->real metric", Jf_.T @ Mg @ Jf_, mm_["M"]
+        yield "amend complex->real lsm", Jf_.T @ Lg, mm_["L"]
+        yield "amend complex->real rsm", Lg @ Jf_, mm_["R"]
+        Ac = jnp.asarray(rng.normal(size=(n, n)) + 1j * rng.normal(size=(n, n)))
+        dc0 = d + 1j * rng.normal(size=n)
+        hfun = lambda xr: Ac @ xr + 0.3j * xr ** 2
+        lh = jft.Gaussian(jnp.asarray(dc0), noise_cov_inv=lambda t: sa ** 2 * t, noise_std_inv=lambda t: sa * t).amend(hfun, domain=jft.ShapeWithDtype((n,), jnp.float64))
+        xr_ = jnp.asarray(rng.normal(size=n))
+        mm_ = mats(lh, xr_)
+        Jh_ = mm_["dc"].dense(lambda t: jax.jvp(hfun, (xr_,), (t,))[1], TreeCoords(jnp.zeros(n, dtype=complex)))
+        M2 = np.kron(Mg, np.eye(2))
+        L2 = np.kron(Lg, np.eye(2))
+        yield "amend real->complex metric", Jh_.T @ M2 @ Jh_, mm_["M"]
+        yield "amend real->complex lsm", Jh_.T @ L2, mm_["L"]
+        yield "amend real->complex rsm", L2 @ Jh_, mm_["R"]
         xp = np.exp(rng.normal(size=n))
         dp = rng.poisson(2 * xp).astype(np.int64)
         lh = jft.Poissonian(jnp.asarray(dp))
